@@ -34,12 +34,21 @@ def absd(o: t.Any) -> t.Dict[str, t.Any]:
     return d
 
 
+def _long_list(items: t.List[str], sep: t.List[str]) -> t.List[str]:
+    out = ["(", "W"]
+    for i, it in enumerate(items):
+        if i:
+            out += sep
+        out.append(it)
+    return out + ["W", ")"]
+
+
 def qdescrs_forms() -> t.List[t.List[str]]:
-    return [["'cn'"], ["(", "W", "'cn'", "W", ")"], ["(", "W", "'cn'", "S", "'a-1'", "W", ")"], ["(", "W", "'X'", "S", "'cn'", "S", "'b'", "W", ")"], ["(", "W", "W", ")"]]
+    return [_long_list(["'n%d'" % i for i in range(24)], ["S"])] + [["'cn'"], ["(", "W", "'cn'", "W", ")"], ["(", "W", "'cn'", "S", "'a-1'", "W", ")"], ["(", "W", "'X'", "S", "'cn'", "S", "'b'", "W", ")"], ["(", "W", "W", ")"]]
 
 
 def oids_forms() -> t.List[t.List[str]]:
-    return [["top"], ["2.5.6.0"], ["(", "W", "top", "W", ")"], ["(", "W", "a", "W", "$", "W", "2.5.4.3", "W", ")"],
+    return [_long_list(["a%d" % i if i % 2 else "2.5.4.%d" % i for i in range(24)], ["W", "$", "W"]), ["top"], ["2.5.6.0"], ["(", "W", "top", "W", ")"], ["(", "W", "a", "W", "$", "W", "2.5.4.3", "W", ")"],
             ["(", "W", "a", "W", "$", "W", "b-1", "W", "$", "W", "c", "W", ")"]]  # fmt: skip
 
 
@@ -59,7 +68,10 @@ def ext_forms(n3: bool) -> t.List[t.List[str]]:
     second = [["S", "X-B", "S", "'w'"], ["S", "X-B", "S", "(", "W", "'w'", "S", "'z'", "W", ")"]]
     two = [a + b for a in E[:4] + E[-5:] for b in second]
     three = [a + second[0] + ["S", "X-C_", "S", "(", "W", "'q'", "W", ")"] for a in E[:3]] if n3 else []
-    return [[]] + E + two + three
+    many = []
+    for i in range(10):
+        many += ["S", "X-K%s" % "abcdefghij"[i], "S"] + (["'v%d'" % i] if i % 2 else ["(", "W", "'p%d'" % i, "S", "'q'", "W", ")"])
+    return [[]] + E + two + three + [many]
 
 
 def clause(kw: str, forms: t.List[t.List[str]]) -> t.List[t.List[str]]:
